@@ -18,7 +18,7 @@ while i>=0 and i<len(t):
     for v in (d['violations'] or [])[:3]:
         ins=[]
         for x in v['inputs']:
-            if x['kind']=='bytes': ins.append('%s=%r'%(x['name'],bytes(x['bytes'])))
+            if x['kind']=='bytes': ins.append('%s=%r'%(x['name'],bytes(x.get('bytes') or [])))
             else: ins.append('%s=%d'%(x['name'],x['int']))
         print('  V',v['assert'],v.get('msg',''),' '.join(ins), v.get('notes',''))
     i=t.find('{',i+j)
